@@ -167,32 +167,44 @@ Proof.
   rewrite G; [reflexivity | assumption | intros k _ []].
 Qed.
 
-(* AttributeMap::EqualTo decides "same attributes" when neither side repeats a key *)
-Lemma equal_to_equiv : forall a b, nodup_keys a -> nodup_keys b -> equal_to (amap_of a) b = attrs_equiv a b.
+Lemma given_last_spec : forall g k acc, given_last k g acc = match last_val k g with Some w => Some w | None => acc end.
 Proof.
-  intros a b Ha Hb.
-  assert (KA : forall k, In k (map fst a) <-> last_val k a <> None) by (intros k; rewrite last_val_None; split; [tauto | intros H; destruct (in_dec (list_eq_dec Byte.byte_eq_dec) k (map fst a)); tauto]).
-  assert (KB : forall k, In k (map fst b) <-> last_val k b <> None) by (intros k; rewrite last_val_None; split; [tauto | intros H; destruct (in_dec (list_eq_dec Byte.byte_eq_dec) k (map fst b)); tauto]).
+  induction g as [|[k' v] g IH]; intros k acc; cbn [given_last last_val]; [reflexivity|].
+  rewrite IH. destruct (last_val k g); [reflexivity|]. now destruct (bytes_eqb k' k).
+Qed.
+Lemma given_last_None : forall g k, given_last k g None = last_val k g.
+Proof. intros g k. rewrite given_last_spec. now destruct (last_val k g). Qed.
+
+Lemma amap_get_In : forall m k v, NoDup (map fst m) -> In (k, v) m -> amap_get k m = Some v.
+Proof. intros m k v H Hin. rewrite amap_get_last_val by assumption. now apply last_val_nodup. Qed.
+Lemma amap_get_Some_In : forall m k v, amap_get k m = Some v -> In (k, v) m.
+Proof.
+  induction m as [|[k1 v1] m IH]; intros k v; cbn; [discriminate|].
+  destruct (bytes_eqb k1 k) eqn:E; [apply bytes_eqb_eq in E; subst; intros H; injection H as <-; now left | intros H; right; now apply IH].
+Qed.
+
+(* AttributeMap::EqualTo (repaired) decides "the same attributes", for all attribute lists *)
+Lemma equal_to_equiv : forall a b, equal_to (amap_of a) b = attrs_equiv a b.
+Proof.
+  intros a b. pose proof (ssorted_NoDup _ (amap_of_sorted a)) as ND.
   destruct (attrs_equiv a b) eqn:Q.
-  - rewrite attrs_equiv_iff in Q. unfold equal_to. apply andb_true_iff. split.
-    + rewrite amap_of_length by assumption. apply Nat.eqb_eq.
-      rewrite <- (map_length fst b), <- (map_length fst a). apply Nat.le_antisymm; apply NoDup_incl_length; try assumption.
-      * intros k Hk. apply KA. rewrite Q. now apply KB.
-      * intros k Hk. apply KB. rewrite <- Q. now apply KA.
-    + apply forallb_forall. intros [k v] Hin. cbn [fst snd]. rewrite amap_get_of, Q, (last_val_nodup b k v Hb Hin). apply aval_eqb_refl.
-  - apply not_true_is_false. intros H. unfold equal_to in H. apply andb_true_iff in H as [H1 H2].
-    rewrite amap_of_length in H1 by assumption. apply Nat.eqb_eq in H1. rewrite forallb_forall in H2.
-    assert (Hval : forall k v, In (k, v) b -> last_val k a = Some v).
-    { intros k v Hin. specialize (H2 (k, v) Hin). cbn [fst snd] in H2. rewrite amap_get_of in H2.
-      destruct (last_val k a); [|discriminate]. apply aval_eqb_eq in H2. now subst. }
-    assert (Inc : incl (map fst b) (map fst a)).
-    { intros k Hk. apply in_map_iff in Hk as ([k' v] & <- & Hin). cbn. apply KA. now rewrite (Hval k' v Hin). }
-    assert (Inc' : incl (map fst a) (map fst b)).
-    { apply NoDup_length_incl; [assumption | rewrite !map_length; lia | assumption]. }
-    assert (Q' : attrs_equiv a b = true); [|congruence].
-    apply attrs_equiv_iff. intros k. destruct (last_val k b) eqn:Eb.
-    + apply last_val_In in Eb. now apply Hval.
-    + apply last_val_None in Eb. apply last_val_None. intros X. apply Eb. now apply Inc'.
+  - rewrite attrs_equiv_iff in Q. unfold equal_to. rewrite !andb_true_iff. split; [split|].
+    + apply negb_true_iff, Nat.ltb_ge. rewrite <- (map_length fst (amap_of a)), <- (map_length fst b).
+      apply NoDup_incl_length; [assumption|]. intros k Hk. apply in_map_iff in Hk as ([k' v] & <- & Hin). cbn.
+      pose proof (amap_get_In _ _ _ ND Hin) as G. rewrite amap_get_of, Q in G.
+      destruct (in_dec (list_eq_dec Byte.byte_eq_dec) k' (map fst b)) as [Y | N]; [assumption|]. apply last_val_None in N. congruence.
+    + apply forallb_forall. intros [k v] Hin. cbn [fst]. rewrite amap_get_of, Q.
+      destruct (last_val k b) eqn:E; [reflexivity|]. apply last_val_None in E. exfalso. apply E. apply in_map_iff. now exists (k, v).
+    + apply forallb_forall. intros [k v] Hin. cbn [fst snd]. rewrite given_last_None, <- Q, <- amap_get_of, (amap_get_In _ _ _ ND Hin).
+      apply aval_eqb_refl.
+  - apply not_true_is_false. intros H. unfold equal_to in H. rewrite !andb_true_iff in H. destruct H as [[_ H1] H2].
+    rewrite forallb_forall in H1, H2.
+    assert (Q' : attrs_equiv a b = true); [|congruence]. apply attrs_equiv_iff. intros k.
+    rewrite <- amap_get_of. destruct (amap_get k (amap_of a)) as [v|] eqn:G.
+    + apply amap_get_Some_In in G. specialize (H2 (k, v) G). cbn [fst snd] in H2. rewrite given_last_None in H2.
+      destruct (last_val k b) as [w|]; [|discriminate]. apply aval_eqb_eq in H2. now subst.
+    + symmetry. apply last_val_None. intros Hin. apply in_map_iff in Hin as ([k' v] & E & Hin). cbn in E. subst k'.
+      specialize (H1 (k, v) Hin). cbn [fst] in H1. now rewrite G in H1.
 Qed.
 
 (* ---------- "the same request" is an equivalence *)
@@ -222,23 +234,18 @@ Proof.
   induction ops as [|s ops IH]; intros st; [reflexivity|]. cbn [fold_left]. rewrite IH. f_equal. apply lstep_gstep.
 Qed.
 
-(* the requests for which the registry works as stated: no repeated attribute key, scope enabled *)
-Definition good_req (r : rules) (d : bool) (q : lreq) : Prop := nodup_keys (q_attrs q) /\ compute_config r d (q_scope q) = true.
+Lemma lmk_matches : forall r d q' n q, logger_matches q (lmk r d q' n) = lreq_eqb q' q.
+Proof. intros r d q' n q. unfold logger_matches, lmk, lreq_eqb. cbn. now rewrite equal_to_equiv. Qed.
 
-Lemma lmk_matches : forall r d q' n q, good_req r d q' -> good_req r d q -> logger_matches q (lmk r d q' n) = lreq_eqb q' q.
+Lemma lg_indices : forall r d ops, ls_out (run_lg r d ops) = expected_indices lreq_eqb ops.
 Proof.
-  intros r d q' n q [N' C'] [N C]. unfold logger_matches, lmk, logger_get_name, lreq_eqb. cbn. rewrite C'.
-  now rewrite equal_to_equiv by assumption.
-Qed.
-
-Lemma lg_indices : forall r d ops, Forall (good_req r d) ops -> ls_out (run_lg r d ops) = expected_indices lreq_eqb ops.
-Proof.
-  intros r d ops H. change (ls_out (run_lg r d ops)) with (snd (lproj (run_lg r d ops))). rewrite run_lg_grun.
-  apply grun_out with (P := good_req r d); auto.
+  intros r d ops. change (ls_out (run_lg r d ops)) with (snd (lproj (run_lg r d ops))). rewrite run_lg_grun.
+  apply grun_out with (P := fun _ => True); auto.
   - intros a _. apply lreq_eqb_refl.
   - intros a b _ _. apply lreq_eqb_sym.
   - intros a b c _ _ _. apply lreq_eqb_trans.
-  - intros q' n q. apply lmk_matches.
+  - intros q' n q _ _. apply lmk_matches.
+  - apply Forall_forall. auto.
 Qed.
 
 (* pairs of (request, index) *)
@@ -267,9 +274,9 @@ Proof.
   rewrite E, Hz' in Hz. injection Hz as ->. eauto.
 Qed.
 
-Lemma same_ok_lemma : forall r d ops, Forall (good_req r d) ops -> same_ok ops (ls_out (run_lg r d ops)) = true.
+Lemma same_ok_lemma : forall r d ops, same_ok ops (ls_out (run_lg r d ops)) = true.
 Proof.
-  intros r d ops H. rewrite lg_indices by assumption. unfold same_ok, expected_indices. rewrite map_length, Nat.eqb_refl. cbn [andb].
+  intros r d ops. rewrite lg_indices. unfold same_ok, expected_indices. rewrite map_length, Nat.eqb_refl. cbn [andb].
   apply forallb_forall. intros [[x ix] [y iy]] Hp. cbn [fst snd]. apply pairs_before_In in Hp as [H1 H2]. cbn in H1, H2.
   apply combine_map_In in H1 as [Hx ->], H2 as [Hy ->].
   destruct (lreq_eqb x y) eqn:E; [|reflexivity]. cbn. apply Nat.eqb_eq.
@@ -278,9 +285,9 @@ Proof.
   - intros a b c _ _ _. apply lreq_eqb_trans.
   - apply Forall_forall. auto.
 Qed.
-Lemma distinct_ok_lemma : forall r d ops, Forall (good_req r d) ops -> distinct_ok ops (ls_out (run_lg r d ops)) = true.
+Lemma distinct_ok_lemma : forall r d ops, distinct_ok ops (ls_out (run_lg r d ops)) = true.
 Proof.
-  intros r d ops H. rewrite lg_indices by assumption. unfold distinct_ok, expected_indices.
+  intros r d ops. rewrite lg_indices. unfold distinct_ok, expected_indices.
   apply forallb_forall. intros [[x ix] [y iy]] Hp. cbn [fst snd]. apply pairs_before_In in Hp as [H1 H2]. cbn in H1, H2.
   apply combine_map_In in H1 as [Hx ->], H2 as [Hy ->].
   destruct (first_pos lreq_eqb x ops =? first_pos lreq_eqb y ops)%nat eqn:E; [|now rewrite orb_true_r].
@@ -329,76 +336,63 @@ Proof.
   apply G.
 Qed.
 
-(* under the hypotheses the records also carry the requested attributes *)
-Lemma lrec_ok_of : forall q a, nodup_keys (q_attrs q) ->
-  (equal_to (amap_of a) (q_attrs q) = true /\ nodup_keys a \/ a = q_attrs q) ->
+(* the records also carry the requested attributes *)
+Lemma lrec_ok_of : forall q a,
+  (equal_to (amap_of a) (q_attrs q) = true \/ a = q_attrs q) ->
   lrec_ok q (mk_lrec 0 (q_scope q) (amap_of a)) = true.
 Proof.
-  intros q a Hq Ha. unfold lrec_ok. cbn [r_scope r_attrs]. rewrite scope_eqb_refl. cbn [andb]. apply andb_true_iff. split.
-  - apply attrs_equiv_iff. intros k. rewrite last_val_amap_of. destruct Ha as [[He Hn] | ->]; [|reflexivity].
-    rewrite equal_to_equiv in He by assumption. now apply attrs_equiv_iff.
+  intros q a Ha. unfold lrec_ok. cbn [r_scope r_attrs]. rewrite scope_eqb_refl. cbn [andb]. apply andb_true_iff. split.
+  - apply attrs_equiv_iff. intros k. rewrite last_val_amap_of. destruct Ha as [He | ->]; [|reflexivity].
+    rewrite equal_to_equiv in He. now apply attrs_equiv_iff.
   - apply nodup_by_NoDup, ssorted_NoDup, amap_of_sorted.
 Qed.
 
-Lemma recs_ok_lemma : forall r d ops, Forall (good_req r d) ops -> recs_ok r d ops (ls_recs (run_lg r d ops)) = true.
+Lemma recs_ok_lemma : forall r d ops, recs_ok r d ops (ls_recs (run_lg r d ops)) = true.
 Proof.
-  intros r d ops H. unfold recs_ok, expected_recs.
+  intros r d ops. unfold recs_ok, expected_recs.
   rewrite (filter_ext (fun nq => spec_config r d (q_scope (snd nq))) (fun nq => compute_config r d (q_scope (snd nq))))
     by (intros; symmetry; apply compute_config_spec).
-  (* every logger's attributes come from a good request *)
-  assert (G : (forall l, In l (ls_loggers (run_lg r d ops)) ->
-                 l_enabled l = compute_config r d (l_scope l) /\ exists a, l_attrs l = amap_of a /\ nodup_keys a) /\
-              ls_calls (run_lg r d ops) = length ops /\
+  assert (G : lg_inv r d (run_lg r d ops) /\ ls_calls (run_lg r d ops) = length ops /\
               recs_match (filter (fun nq => compute_config r d (q_scope (snd nq))) (number_from 0 ops)) (ls_recs (run_lg r d ops)) = true).
   { unfold run_lg. induction ops as [|q ops IH] using rev_ind.
     - split; [intros lg0 Hl0; destruct Hl0 | split; reflexivity].
-    - apply Forall_app in H as [H1 H2]. inversion H2 as [|? ? [Nq Cq] _]; subst. specialize (IH H1). destruct IH as (I & Hn & Hr).
+    - destruct IH as (I & Hn & Hr).
       rewrite fold_left_app. cbn [fold_left]. set (st := fold_left (lstep r d) ops lstate0) in *.
       assert (App : forall e o e' o', recs_match e o = true -> recs_match e' o' = true -> recs_match (e ++ e') (o ++ o') = true).
       { clear. induction e as [|[n q] e IHe]; intros [|rc o] e' o' H1 H2; cbn in *; try discriminate; [assumption|].
         apply andb_true_iff in H1 as [H1 H3]. rewrite H1. cbn. now apply IHe. }
       unfold lstep. destruct (find (logger_matches q) (ls_loggers st)) as [l|] eqn:F.
-      + apply find_some in F as [Hl Hm]. destruct (I l Hl) as [He (a & Ha & Na)]. cbn [ls_loggers ls_calls ls_recs].
+      + apply find_some in F as [Hl Hm]. destruct (I l Hl) as [He (a & Ha)]. cbn [ls_loggers ls_calls ls_recs].
         split; [exact I|]. split; [rewrite app_length; cbn; lia|].
         unfold logger_matches in Hm. apply andb_true_iff in Hm as [Hm Hq]. apply andb_true_iff in Hm as [_ Hs]. apply scope_eqb_eq in Hs.
-        rewrite number_from_app, filter_app. cbn [number_from filter snd]. rewrite He, Hs, Cq.
+        rewrite number_from_app, filter_app. cbn [number_from filter snd]. rewrite He, Hs.
+        destruct (compute_config r d (q_scope q)); [|now rewrite !app_nil_r].
         apply App; [assumption|]. cbn [recs_match r_call]. rewrite Hn, Nat.add_0_l, Nat.eqb_refl. cbn [andb]. rewrite andb_true_r.
-        rewrite Ha in *. unfold lrec_ok. cbn [r_scope r_attrs]. rewrite <- Hs.
-        pose proof (lrec_ok_of q a Nq (or_introl (conj Hq Na))) as L. unfold lrec_ok in L. cbn [r_scope r_attrs] in L. now rewrite <- Hs in L.
+        rewrite Ha in *. pose proof (lrec_ok_of q a (or_introl Hq)) as L. unfold lrec_ok in *. cbn [r_scope r_attrs] in *. exact L.
       + cbn [ls_loggers ls_calls ls_recs l_enabled l_scope l_attrs]. split; [|split; [rewrite app_length; cbn; lia|]].
-        * intros l Hl. apply in_app_or in Hl as [Hl | [<- | []]]; [now apply I|]. cbn. split; [reflexivity | now exists (q_attrs q)].
-        * rewrite number_from_app, filter_app. cbn [number_from filter snd]. rewrite Cq.
+        * intros lg Hl. apply in_app_or in Hl as [Hl | [<- | []]]; [now apply I|]. cbn. split; [reflexivity | now exists (q_attrs q)].
+        * rewrite number_from_app, filter_app. cbn [number_from filter snd].
+          destruct (compute_config r d (q_scope q)); [|now rewrite !app_nil_r].
           apply App; [assumption|]. cbn [recs_match r_call]. rewrite Hn, Nat.add_0_l, Nat.eqb_refl. cbn [andb]. rewrite andb_true_r.
-          pose proof (lrec_ok_of q (q_attrs q) Nq (or_intror eq_refl)) as L. exact L. }
+          exact (lrec_ok_of q (q_attrs q) (or_intror eq_refl)). }
   apply G.
 Qed.
 
-Lemma model_meets_spec_lg : forall r d ops, Forall (good_req r d) ops ->
-  spec_lg r d ops (ls_out (run_lg r d ops)) (ls_recs (run_lg r d ops)) = [].
-Proof. intros r d ops H. unfold spec_lg. now rewrite same_ok_lemma, distinct_ok_lemma, recs_ok_lemma. Qed.
+Lemma model_meets_spec_lg : forall r d ops, spec_lg r d ops (ls_out (run_lg r d ops)) (ls_recs (run_lg r d ops)) = [].
+Proof. intros r d ops. unfold spec_lg. now rewrite same_ok_lemma, distinct_ok_lemma, recs_ok_lemma. Qed.
 
-Example good_req_nonvacuous :
-  let q := mk_lreq (bs "l") (bs "b") [] [] [(bs "k", AInt 1); (bs "j", AStr (bs "v"))] in
-  good_req [] true q /\ ls_out (run_lg [] true [q; q]) = [0; 0]%nat.
-Proof. cbn. split; [split; [repeat constructor; cbn; intuition discriminate | reflexivity] | vm_compute; reflexivity]. Qed.
-
-(* ---------- the two ways the registry fails *)
-(* F19: the same request with a repeated attribute key gets a new logger each time *)
+(* ---------- regressions: the inputs on which the registry used to fail (F19, F19b, F21; repaired by 4364788, 6b10326) *)
 Definition f19_req : lreq := mk_lreq (bs "l") (bs "b") [] [] [(bs "k", AInt 1); (bs "k", AInt 1)].
-Lemma same_identity_refuted_dup_key :
-  lreq_eqb f19_req f19_req = true /\ ls_out (run_lg [] true [f19_req; f19_req]) = [0; 1]%nat /\
-  same_ok [f19_req; f19_req] (ls_out (run_lg [] true [f19_req; f19_req])) = false.
-Proof. vm_compute. auto. Qed.
-(* F21: the same request for a scope the configurator disables gets a new logger each time *)
+Example f19_repaired : ls_out (run_lg [] true [f19_req; f19_req]) = [0; 0]%nat.
+Proof. vm_compute. reflexivity. Qed.
 Definition f21_req : lreq := mk_lreq (bs "l") (bs "a") [] [] [].
-Lemma same_identity_refuted_disabled :
-  ls_out (run_lg [(CName (bs "a"), false)] true [f21_req; f21_req]) = [0; 1]%nat /\
-  same_ok [f21_req; f21_req] (ls_out (run_lg [(CName (bs "a"), false)] true [f21_req; f21_req])) = false.
+Example f21_repaired :
+  ls_out (run_lg [(CName (bs "a"), false)] true [f21_req; f21_req]) = [0; 0]%nat /\
+  ls_recs (run_lg [(CName (bs "a"), false)] true [f21_req; f21_req]) = [].
 Proof. vm_compute. auto. Qed.
-(* F19b: {j:v, j:v} is answered with the logger of {k:1, j:v} and the record goes out under that scope *)
 Definition f19b_a : lreq := mk_lreq (bs "l") (bs "b") [] [] [(bs "k", AInt 1); (bs "j", AStr (bs "v"))].
 Definition f19b_b : lreq := mk_lreq (bs "l") (bs "b") [] [] [(bs "j", AStr (bs "v")); (bs "j", AStr (bs "v"))].
-Lemma distinct_identity_refuted_dup_key :
-  lreq_eqb f19b_a f19b_b = false /\ ls_out (run_lg [] true [f19b_a; f19b_b]) = [0; 0]%nat /\
-  recs_ok [] true [f19b_a; f19b_b] (ls_recs (run_lg [] true [f19b_a; f19b_b])) = false.
+Example f19b_repaired :
+  lreq_eqb f19b_a f19b_b = false /\ ls_out (run_lg [] true [f19b_a; f19b_b]) = [0; 1]%nat /\
+  map r_attrs (ls_recs (run_lg [] true [f19b_a; f19b_b])) = [[(bs "j", AStr (bs "v")); (bs "k", AInt 1)]; [(bs "j", AStr (bs "v"))]].
 Proof. vm_compute. auto. Qed.
